@@ -1033,3 +1033,887 @@ Proof.
   intros Hv. pose proof (amod_valid _ Hv). unfold loc_parse.
   rewrite parse_raw_range_pair by (try assumption; lia). reflexivity.
 Qed.
+
+(* ------------------------------------------------------------------ indexed tables = mathematical lookup *)
+
+Lemma skipn_skipn' {T} (a b : nat) (l : list T) : skipn a (skipn b l) = skipn (b + a) l.
+Proof.
+  revert l. induction b as [|b IH]; intros l; simpl; [reflexivity|].
+  destruct l as [|x l]; [now rewrite skipn_nil|]. apply IH.
+Qed.
+
+Lemma read_un_at n be bs :
+  read_un n be bs =
+  if (n <=? length bs)%nat then Ok ((if be then be_val (firstn n bs) else le_val (firstn n bs)), skipn n bs)
+  else Err EUnexpectedEof.
+Proof.
+  unfold read_un, read_bytes. destruct (n <=? length bs)%nat eqn:E.
+  - rewrite take_firstn by lia. reflexivity.
+  - destruct (take n bs) as [[h t]|] eqn:T; [|reflexivity].
+    apply take_spec in T as [-> L]. rewrite app_length in E. lia.
+Qed.
+
+(* the common shape of get_address / get_offset / get_str_offset *)
+Lemma table_lookup be (n : nat) (w : N) sect base index :
+  w = N.of_nat n -> (0 < n)%nat -> N.of_nat (length sect) < two64 ->
+  (let* r1 := skip base sect in
+   match checked_mul64 index w with
+   | None => Err EUnexpectedEof
+   | Some io => let* r2 := skip io r1 in read_un n be r2
+   end) =
+  match word_at be n sect (base + index * w) with
+  | Some v => Ok (v, skipn (N.to_nat (base + index * w) + n) sect)
+  | None => Err EUnexpectedEof
+  end.
+Proof.
+  intros Hw Hn Hlen. unfold word_at, skip, checked_mul64.
+  destruct (N.of_nat (length sect) <? base) eqn:E1; cbn [bind].
+  - replace (base + index * w + N.of_nat n <=? N.of_nat (length sect)) with false by lia. reflexivity.
+  - destruct (index * w <? two64) eqn:E2.
+    + rewrite skipn_length.
+      destruct (N.of_nat (length sect - N.to_nat base) <? index * w) eqn:E3; cbn [bind].
+      * replace (base + index * w + N.of_nat n <=? N.of_nat (length sect)) with false by lia. reflexivity.
+      * rewrite read_un_at. rewrite !skipn_length.
+        destruct (n <=? length sect - N.to_nat base - N.to_nat (index * w))%nat eqn:E4.
+        -- replace (base + index * w + N.of_nat n <=? N.of_nat (length sect)) with true by lia.
+           rewrite !skipn_skipn'. replace (N.to_nat base + N.to_nat (index * w))%nat with (N.to_nat (base + index * w)) by lia.
+           reflexivity.
+        -- replace (base + index * w + N.of_nat n <=? N.of_nat (length sect)) with false by lia. reflexivity.
+    + replace (base + index * w + N.of_nat n <=? N.of_nat (length sect)) with false by lia. reflexivity.
+Qed.
+
+Lemma get_address_spec be sect asize base index :
+  valid_asize asize = true -> N.of_nat (length sect) < two64 ->
+  get_address be sect asize base index =
+  match addr_table be asize sect base index with Some v => Ok v | None => Err EUnexpectedEof end.
+Proof.
+  intros Hv Hlen. unfold get_address, addr_table.
+  assert (Hn : (0 < N.to_nat asize)%nat) by (apply valid_asize_cases in Hv; lia).
+  pose proof (table_lookup be (N.to_nat asize) asize sect base index (eq_sym (N2Nat.id asize)) Hn Hlen) as T.
+  cbn zeta in T.
+  transitivity (let* (a, _) := (let* r1 := skip base sect in
+                  match checked_mul64 index asize with
+                  | Some io => let* r2 := skip io r1 in read_un (N.to_nat asize) be r2
+                  | None => Err EUnexpectedEof end) in Ok a).
+  - destruct (skip base sect) as [r1| | |]; cbn [bind]; try reflexivity.
+    destruct (checked_mul64 index asize) as [io|]; cbn [bind]; [|reflexivity].
+    destruct (skip io r1) as [r2| | |]; cbn [bind]; try reflexivity.
+    rewrite read_address_eq by exact Hv. reflexivity.
+  - rewrite T. destruct (word_at be (N.to_nat asize) sect (base + index * asize)); reflexivity.
+Qed.
+
+Definition wbytes (fmt64 : bool) : nat := if fmt64 then 8%nat else 4%nat.
+
+Lemma read_word_eq f be bs : read_word f be bs = read_un (wbytes f) be bs.
+Proof. destruct f; reflexivity. Qed.
+
+Lemma get_offset_spec be fmt64 sect base index :
+  N.of_nat (length sect) < two64 ->
+  get_offset be fmt64 sect base index =
+  match offset_table be fmt64 sect base index with
+  | Some o => if o <? two64 then Ok o else Err EUnsupportedOffset
+  | None => Err EUnexpectedEof
+  end.
+Proof.
+  intros Hlen. unfold get_offset, offset_table.
+  assert (Hw : word_size fmt64 = N.of_nat (wbytes fmt64)) by (destruct fmt64; reflexivity).
+  assert (Hn : (0 < wbytes fmt64)%nat) by (destruct fmt64; simpl; lia).
+  pose proof (table_lookup be (wbytes fmt64) (word_size fmt64) sect base index Hw Hn Hlen) as T.
+  cbn zeta in T.
+  transitivity (let* (off, _) := (let* r1 := skip base sect in
+                  match checked_mul64 index (word_size fmt64) with
+                  | Some io => let* r2 := skip io r1 in read_un (wbytes fmt64) be r2
+                  | None => Err EUnexpectedEof end) in
+                if base + off <? two64 then Ok (base + off) else Err EUnsupportedOffset).
+  - destruct (skip base sect) as [r1| | |]; cbn [bind]; try reflexivity.
+    destruct (checked_mul64 index (word_size fmt64)) as [io|]; cbn [bind]; [|reflexivity].
+    destruct (skip io r1) as [r2| | |]; cbn [bind]; try reflexivity.
+    rewrite read_word_eq. reflexivity.
+  - rewrite T. change (if fmt64 then 8%nat else 4%nat) with (wbytes fmt64).
+    destruct (word_at be (wbytes fmt64) sect (base + index * word_size fmt64)); reflexivity.
+Qed.
+
+Lemma get_str_offset_spec be fmt64 sect base index :
+  N.of_nat (length sect) < two64 ->
+  get_str_offset be fmt64 sect base index =
+  match str_offset_table be fmt64 sect base index with Some o => Ok o | None => Err EUnexpectedEof end.
+Proof.
+  intros Hlen. unfold get_str_offset, str_offset_table.
+  assert (Hw : word_size fmt64 = N.of_nat (wbytes fmt64)) by (destruct fmt64; reflexivity).
+  assert (Hn : (0 < wbytes fmt64)%nat) by (destruct fmt64; simpl; lia).
+  pose proof (table_lookup be (wbytes fmt64) (word_size fmt64) sect base index Hw Hn Hlen) as T.
+  cbn zeta in T.
+  transitivity (let* (off, _) := (let* r1 := skip base sect in
+                  match checked_mul64 index (word_size fmt64) with
+                  | Some io => let* r2 := skip io r1 in read_un (wbytes fmt64) be r2
+                  | None => Err EUnexpectedEof end) in Ok off).
+  - destruct (skip base sect) as [r1| | |]; cbn [bind]; try reflexivity.
+    destruct (checked_mul64 index (word_size fmt64)) as [io|]; cbn [bind]; [|reflexivity].
+    destruct (skip io r1) as [r2| | |]; cbn [bind]; try reflexivity.
+    rewrite read_word_eq. reflexivity.
+  - rewrite T. change (if fmt64 then 8%nat else 4%nat) with (wbytes fmt64).
+    destruct (word_at be (wbytes fmt64) sect (base + index * word_size fmt64)); reflexivity.
+Qed.
+
+(* invalid address sizes are rejected, never read with a wrong width *)
+Lemma get_address_invalid be sect asize base index a :
+  valid_asize asize = false -> get_address be sect asize base index <> Ok a.
+Proof.
+  intros Hv H. apply get_address_ok_valid in H. congruence.
+Qed.
+
+(* ------------------------------------------------------------------ resolution refines the spec *)
+
+Definition idx_ok (e : lent) : Prop :=
+  match e with
+  | LBasex i => i < two64
+  | LStartxEndx i j => i < two64 /\ j < two64
+  | LStartxLength i _ => i < two64
+  | _ => True
+  end.
+
+Lemma convert_raw_resolve1 dbg c x tbl base e base' o :
+  valid_asize (c_asize c) = true ->
+  (forall i, i < two64 ->
+     ctx_address c x i = match tbl i with Some a => Ok a | None => Err EUnexpectedEof end) ->
+  idx_ok e ->
+  resolve1 (c_asize c) tbl base e = Some (base', o) ->
+  convert_raw dbg c x base e =
+  Ok (match o with Some r => if live (c_asize c) r then Some r else None | None => None end, base').
+Proof.
+  intros Hv Htbl Hidx Hr.
+  assert (F : forall r : N * N,
+    (let* tomb := Ok (atomb (c_asize c)) in
+     if (tomb <=? fst r) || (snd r <=? fst r) then Ok (None, base) else Ok (Some r, base)) =
+    Ok ((if live (c_asize c) r then Some r else None), base)).
+  { intros r. cbn [bind]. unfold live.
+    destruct ((atomb (c_asize c) <=? fst r) || (snd r <=? fst r)) eqn:E1;
+      destruct ((fst r <? atomb (c_asize c)) && (fst r <? snd r)) eqn:E2; try reflexivity; lia. }
+  unfold convert_raw. rewrite !min_tombstone_raw_valid by exact Hv.
+  destruct e; cbn [resolve1 idx_ok] in *.
+  - (* LPair *)
+    destruct (atomb (c_asize c) <=? base) eqn:E; inversion Hr; subst; cbn [bind]; rewrite E; [reflexivity|].
+    rewrite !wrapping_add_sized_raw_valid by exact Hv. cbn [bind]. apply F.
+  - inversion Hr; subst. reflexivity.
+  - rewrite Htbl by exact Hidx. destruct (tbl i); inversion Hr; subst. reflexivity.
+  - destruct Hidx as [Hi Hj]. rewrite (Htbl i Hi), (Htbl j Hj).
+    destruct (tbl i) as [b|]; [|discriminate]. destruct (tbl j) as [e|]; [|discriminate].
+    inversion Hr; subst. cbn [bind]. apply F.
+  - rewrite Htbl by exact Hidx. destruct (tbl i) as [b|]; [|discriminate]. inversion Hr; subst. cbn [bind].
+    rewrite wrapping_add_sized_raw_valid by exact Hv. cbn [bind]. apply F.
+  - destruct (atomb (c_asize c) <=? base) eqn:E; inversion Hr; subst; cbn [bind]; rewrite E; [reflexivity|].
+    rewrite !wrapping_add_sized_raw_valid by exact Hv. cbn [bind]. apply F.
+  - inversion Hr; subst. apply F.
+  - inversion Hr; subst. apply F.
+  - inversion Hr; subst. rewrite wrapping_add_sized_raw_valid by exact Hv. cbn [bind]. apply F.
+Qed.
+
+(* resolve_rng / resolve_loc as one function of the entry projection and the item constructor *)
+Fixpoint resolve_gen {A B : Type} (ent : A -> lent) (mk : N * N -> A -> B)
+         (sz : N) (tbl : N -> option N) (base : N) (es : list A) : option (list B) :=
+  match es with
+  | [] => Some []
+  | a :: es' =>
+      match resolve1 sz tbl base (ent a) with
+      | None => None
+      | Some (base', o) =>
+          match resolve_gen ent mk sz tbl base' es' with
+          | None => None
+          | Some rs => Some (match o with Some r => if live sz r then mk r a :: rs else rs | None => rs end)
+          end
+      end
+  end.
+
+Lemma resolve_rng_gen sz tbl : forall es base,
+  resolve_rng sz tbl base es = resolve_gen (fun e => e) (fun r _ => r) sz tbl base es.
+Proof.
+  induction es as [|e es IH]; intros base; simpl; [reflexivity|].
+  destruct (resolve1 sz tbl base e) as [[b' o]|]; [|reflexivity]. now rewrite IH.
+Qed.
+
+Lemma resolve_loc_gen sz tbl : forall xs base,
+  resolve_loc sz tbl base xs = resolve_gen fst (fun r (a : lloc) => (r, snd a)) sz tbl base xs.
+Proof.
+  induction xs as [|[e d] xs IH]; intros base; simpl; [reflexivity|].
+  destruct (resolve1 sz tbl base e) as [[b' o]|]; [|reflexivity]. now rewrite IH.
+Qed.
+
+Lemma raw_next_nonempty {A} (parse : list byte -> res (option A * list byte)) inp :
+  inp <> [] ->
+  raw_next parse inp =
+  match parse inp with
+  | Ok (Some e, rest) => (Ok (Some e), rest)
+  | Ok (None, _) => (Ok None, [])
+  | Err e => (Err e, [])
+  | Panic => (Panic, [])
+  | OutOfFuel => (OutOfFuel, [])
+  end.
+Proof. destruct inp; [contradiction|reflexivity]. Qed.
+
+Section EncList.
+  Context {A : Type} (parse : list byte -> res (option A * list byte))
+          (enc : A -> list byte) (wfA : A -> bool) (term : list byte).
+  Hypothesis Hent : forall a rest, wfA a = true -> parse (enc a ++ rest) = Ok (Some a, rest).
+  Hypothesis Hne : forall a, wfA a = true -> enc a <> [].
+  Hypothesis Hterm : forall rest, parse (term ++ rest) = Ok (None, rest).
+  Hypothesis Hterm_ne : term <> [].
+
+  Definition enc_all (es : list A) : list byte := concat (map enc es) ++ term.
+
+  Lemma enc_all_cons a es rest : (enc_all (a :: es)) ++ rest = enc a ++ (enc_all es ++ rest).
+  Proof. unfold enc_all. simpl. now rewrite <- !app_assoc. Qed.
+
+  Lemma raw_next_entry a more : wfA a = true -> raw_next parse (enc a ++ more) = (Ok (Some a), more).
+  Proof.
+    intros Hw. rewrite raw_next_nonempty.
+    - now rewrite Hent.
+    - intros E. apply app_eq_nil in E as [E _]. exact (Hne a Hw E).
+  Qed.
+
+  Lemma raw_next_term rest : raw_next parse (enc_all [] ++ rest) = (Ok None, []).
+  Proof.
+    unfold enc_all. simpl. rewrite raw_next_nonempty.
+    - now rewrite Hterm.
+    - intros E. apply app_eq_nil in E as [E _]. exact (Hterm_ne E).
+  Qed.
+
+  Lemma enc_all_length es : forallb wfA es = true -> (length es < length (enc_all es))%nat.
+  Proof.
+    unfold enc_all. induction es as [|a es IH]; intros Hw; simpl.
+    - destruct term; [contradiction|simpl; lia].
+    - apply andb_true_iff in Hw as [Ha Hw]. specialize (IH Hw).
+      rewrite <- app_assoc, app_length. pose proof (Hne a Ha). destruct (enc a); [contradiction|simpl in *; lia].
+  Qed.
+
+  (* raw iteration returns exactly the encoded entries *)
+  Lemma drain_raw_enc : forall es rest calls,
+    forallb wfA es = true -> (length es < calls)%nat ->
+    drain (raw_next parse) calls (enc_all es ++ rest) = Ok (map EvItem es).
+  Proof.
+    induction es as [|a es IH]; intros rest calls Hw Hc.
+    - destruct calls as [|k]; [lia|]. cbn [drain]. rewrite raw_next_term. reflexivity.
+    - destruct calls as [|k]; [simpl in Hc; lia|]. simpl in Hw. apply andb_true_iff in Hw as [Ha Hw].
+      cbn [drain]. rewrite enc_all_cons, raw_next_entry by exact Ha.
+      rewrite IH by (try assumption; simpl in Hc; lia). reflexivity.
+  Qed.
+
+  Lemma drain_raw_enc' es rest :
+    forallb wfA es = true ->
+    drain (raw_next parse) (length (enc_all es ++ rest) + 2) (enc_all es ++ rest) = Ok (map EvItem es).
+  Proof.
+    intros Hw. apply drain_raw_enc; [exact Hw|].
+    pose proof (enc_all_length es Hw). rewrite app_length. lia.
+  Qed.
+
+  (* ---- resolved iteration *)
+  Context {B : Type} (ent : A -> lent) (mk : N * N -> A -> B).
+  Variables (dbg : bool) (c : lcfg) (x : lctx) (tbl : N -> option N).
+  Hypothesis Hv : valid_asize (c_asize c) = true.
+  Hypothesis Htbl : forall i, i < two64 ->
+     ctx_address c x i = match tbl i with Some a => Ok a | None => Err EUnexpectedEof end.
+  Hypothesis Hidx : forall a, wfA a = true -> idx_ok (ent a).
+
+  Notation lnext := (list_next parse ent mk).
+  Notation rgen := (resolve_gen ent mk (c_asize c) tbl).
+
+  Lemma list_next_enc : forall es base fuel rs rest,
+    forallb wfA es = true -> (length es < fuel)%nat -> rgen base es = Some rs ->
+    match rs with
+    | [] => exists base', lnext fuel dbg c x {| s_inp := enc_all es ++ rest; s_base := base |}
+                          = (Ok None, {| s_inp := []; s_base := base' |})
+    | r :: rs' => exists es' base',
+         lnext fuel dbg c x {| s_inp := enc_all es ++ rest; s_base := base |}
+         = (Ok (Some r), {| s_inp := enc_all es' ++ rest; s_base := base' |}) /\
+         rgen base' es' = Some rs' /\ forallb wfA es' = true /\ (length es' < length es)%nat
+    end.
+  Proof.
+    induction es as [|a es IH]; intros base fuel rs rest Hw Hf Hr.
+    - simpl in Hr. inversion Hr; subst. destruct fuel as [|f]; [lia|].
+      exists base. cbn [list_next s_inp s_base]. rewrite raw_next_term. reflexivity.
+    - destruct fuel as [|f]; [simpl in Hf; lia|]. simpl in Hw. apply andb_true_iff in Hw as [Ha Hw].
+      cbn [resolve_gen] in Hr.
+      destruct (resolve1 (c_asize c) tbl base (ent a)) as [[base1 o]|] eqn:R1; [|discriminate].
+      destruct (rgen base1 es) as [rs1|] eqn:R2; [|discriminate].
+      pose proof (convert_raw_resolve1 dbg c x tbl base (ent a) base1 o Hv Htbl (Hidx a Ha) R1) as Hc.
+      cbn [list_next s_inp s_base]. rewrite enc_all_cons, raw_next_entry by exact Ha. rewrite Hc.
+      assert (Hf' : (length es < f)%nat) by (simpl in Hf; lia).
+      destruct o as [r|].
+      + destruct (live (c_asize c) r).
+        * inversion Hr; subst. exists es, base1. repeat split; auto.
+        * inversion Hr; subst. specialize (IH base1 f rs rest Hw Hf' R2).
+          destruct rs as [|r0 rs']; [exact IH|].
+          destruct IH as [es' [b' [E1 [E2 [E3 E4]]]]]. exists es', b'. repeat split; auto. simpl. lia.
+      + inversion Hr; subst. specialize (IH base1 f rs rest Hw Hf' R2).
+        destruct rs as [|r0 rs']; [exact IH|].
+        destruct IH as [es' [b' [E1 [E2 [E3 E4]]]]]. exists es', b'. repeat split; auto. simpl. lia.
+  Qed.
+
+  Lemma drain_list_enc : forall n es base rs rest calls,
+    (length es < n)%nat -> forallb wfA es = true -> rgen base es = Some rs -> (length es < calls)%nat ->
+    drain (fun s => lnext (next_fuel s) dbg c x s) calls {| s_inp := enc_all es ++ rest; s_base := base |}
+    = Ok (map EvItem rs).
+  Proof.
+    induction n as [|n IH]; intros es base rs rest calls Hn Hw Hr Hc; [lia|].
+    destruct calls as [|k]; [lia|].
+    assert (Hfuel : (length es < next_fuel {| s_inp := enc_all es ++ rest; s_base := base |})%nat).
+    { unfold next_fuel. cbn [s_inp]. rewrite app_length. pose proof (enc_all_length es Hw). lia. }
+    pose proof (list_next_enc es base _ rs rest Hw Hfuel Hr) as L.
+    cbn [drain]. destruct rs as [|r rs'].
+    - destruct L as [b' L]. rewrite L. reflexivity.
+    - destruct L as [es' [b' [L [R' [W' Len]]]]]. rewrite L.
+      rewrite (IH es' b' rs' rest k) by (try assumption; lia). reflexivity.
+  Qed.
+
+  Lemma drain_list_enc' es base rs rest :
+    forallb wfA es = true -> rgen base es = Some rs ->
+    drain (fun s => lnext (next_fuel s) dbg c x s) (length (enc_all es ++ rest) + 2)
+          {| s_inp := enc_all es ++ rest; s_base := base |}
+    = Ok (map EvItem rs).
+  Proof.
+    intros Hw Hr. apply (drain_list_enc (S (length es))); try assumption; try lia.
+    pose proof (enc_all_length es Hw). rewrite app_length. lia.
+  Qed.
+End EncList.
+
+(* ------------------------------------------------------------------ the four encodings as instances *)
+
+Lemma enc_addr_ne c a : valid_asize (c_asize c) = true -> enc_addr c a <> [].
+Proof.
+  intros Hv E. apply (f_equal (@length byte)) in E. unfold enc_addr in E. rewrite enc_un_length in E.
+  apply valid_asize_cases in Hv. simpl in E. lia.
+Qed.
+
+Lemma enc_rle_ne c e : wf_rle c e = true -> enc_rle c e <> [].
+Proof. destruct e; simpl; intros H; try discriminate H; discriminate. Qed.
+
+Lemma enc_pair_ne c e : valid_asize (c_asize c) = true -> wf_pair c e = true -> enc_pair c e <> [].
+Proof.
+  intros Hv. destruct e; simpl; intros H; try discriminate H; intros E; apply app_eq_nil in E as [E _];
+    exact (enc_addr_ne c _ Hv E).
+Qed.
+
+Lemma enc_lle_ne c x : wf_lle c x = true -> enc_lle c x <> [].
+Proof. destruct x as [e d]. destruct e; simpl; intros H; try discriminate H; try discriminate.
+       rewrite andb_false_r in H. discriminate H. Qed.
+
+Lemma enc_locpair_ne c x : valid_asize (c_asize c) = true -> wf_locpair c x = true -> enc_locpair c x <> [].
+Proof.
+  intros Hv. destruct x as [e d]. destruct e; simpl; intros H; try discriminate H; intros E; apply app_eq_nil in E as [E _];
+    exact (enc_addr_ne c _ Hv E).
+Qed.
+
+Lemma wf_rle_idx c e : wf_rle c e = true -> idx_ok e.
+Proof. destruct e; simpl; intros H; try exact I; wf_split; auto. Qed.
+
+Lemma wf_pair_idx c e : wf_pair c e = true -> idx_ok e.
+Proof. destruct e; simpl; intros H; try exact I; discriminate H. Qed.
+
+Lemma wf_lle_idx c x : wf_lle c x = true -> idx_ok (fst x).
+Proof.
+  destruct x as [e d]. unfold wf_lle. intros H. apply andb_true_iff in H as [_ H].
+  destruct e; simpl; try exact I; wf_split; auto.
+Qed.
+
+Lemma wf_locpair_idx c x : wf_locpair c x = true -> idx_ok (fst x).
+Proof. destruct x as [e d]. destruct e; simpl; intros H; try exact I; discriminate H. Qed.
+
+Lemma skip_pre (pre l : list byte) : skip (N.of_nat (length pre)) (pre ++ l) = Ok l.
+Proof.
+  unfold skip. rewrite app_length. replace (N.of_nat (length pre + length l) <? N.of_nat (length pre)) with false by lia.
+  rewrite Nat2N.id, skipn_app, Nat.sub_diag, skipn_all. reflexivity.
+Qed.
+
+Lemma addr_table_ctx c x :
+  valid_asize (c_asize c) = true -> N.of_nat (length (x_addr x)) < two64 ->
+  forall i, i < two64 ->
+  ctx_address c x i =
+  match addr_table (c_be c) (c_asize c) (x_addr x) (x_addr_base x) i with
+  | Some a => Ok a | None => Err EUnexpectedEof end.
+Proof. intros Hv Hl i _. unfold ctx_address. now apply get_address_spec. Qed.
+
+Section Instances.
+  Variables (dbg : bool) (c : lcfg).
+  Hypothesis Hv : valid_asize (c_asize c) = true.
+
+  Let term_pair := enc_addr c 0 ++ enc_addr c 0.
+  Lemma term_pair_ne : term_pair <> [].
+  Proof. intros E. apply app_eq_nil in E as [E _]. exact (enc_addr_ne c 0 Hv E). Qed.
+  Lemma rng_pair_term rest : rng_parse dbg c true (term_pair ++ rest) = Ok (None, rest).
+  Proof. unfold term_pair. rewrite <- app_assoc. now apply rng_parse_pair_end. Qed.
+  Lemma loc_pair_term rest : loc_parse dbg c true (term_pair ++ rest) = Ok (None, rest).
+  Proof. unfold term_pair. rewrite <- app_assoc. now apply loc_parse_pair_end. Qed.
+  Lemma term_op_ne : [n2b 0] <> [].
+  Proof. discriminate. Qed.
+
+  (* ---- raw iteration *)
+  Lemma rng_raw_drain_enc es rest :
+    forallb (wf_rng c) es = true ->
+    rng_raw_drain dbg c (rng_bare c) (enc_rng_list c es ++ rest) = Ok (map EvItem es).
+  Proof.
+    unfold wf_rng, enc_rng_list, rng_raw_drain, rng_raw_next. destruct (rng_bare c); intros Hw.
+    - exact (drain_raw_enc' (rng_parse dbg c true) (enc_pair c) (wf_pair c) term_pair
+               (fun a r => rng_parse_pair_enc dbg c a r Hv) (fun a => enc_pair_ne c a Hv)
+               rng_pair_term term_pair_ne es rest Hw).
+    - exact (drain_raw_enc' (rng_parse dbg c false) (enc_rle c) (wf_rle c) [n2b 0]
+               (fun a r => rng_parse_rle_enc dbg c a r Hv) (enc_rle_ne c)
+               (rng_parse_rle_end dbg c) term_op_ne es rest Hw).
+  Qed.
+
+  Lemma loc_raw_drain_enc dwo xs rest :
+    forallb (wf_loc c dwo) xs = true ->
+    loc_raw_drain dbg c (loc_bare c dwo) (enc_loc_list c dwo xs ++ rest) = Ok (map EvItem xs).
+  Proof.
+    unfold wf_loc, enc_loc_list, loc_raw_drain, loc_raw_next. destruct (loc_bare c dwo); intros Hw.
+    - exact (drain_raw_enc' (loc_parse dbg c true) (enc_locpair c) (wf_locpair c) term_pair
+               (fun a r => loc_parse_pair_enc dbg c a r Hv) (fun a => enc_locpair_ne c a Hv)
+               loc_pair_term term_pair_ne xs rest Hw).
+    - exact (drain_raw_enc' (loc_parse dbg c false) (enc_lle c) (wf_lle c) [n2b 0]
+               (fun a r => loc_parse_lle_enc dbg c a r Hv) (enc_lle_ne c)
+               (loc_parse_lle_end dbg c) term_op_ne xs rest Hw).
+  Qed.
+
+  (* ---- resolved iteration *)
+  Variable x : lctx.
+  Hypothesis Hlen : N.of_nat (length (x_addr x)) < two64.
+  Notation tbl := (addr_table (c_be c) (c_asize c) (x_addr x) (x_addr_base x)).
+
+  Lemma rng_drain_enc es rest base rs :
+    forallb (wf_rng c) es = true ->
+    resolve_rng (c_asize c) tbl base es = Some rs ->
+    rng_drain dbg c (rng_bare c) x {| s_inp := enc_rng_list c es ++ rest; s_base := base |} = Ok (map EvItem rs).
+  Proof.
+    rewrite resolve_rng_gen.
+    unfold wf_rng, enc_rng_list, rng_drain, rng_next. destruct (rng_bare c); intros Hw Hr; cbn [s_inp].
+    - exact (drain_list_enc' (rng_parse dbg c true) (enc_pair c) (wf_pair c) term_pair
+               (fun a r => rng_parse_pair_enc dbg c a r Hv) (fun a => enc_pair_ne c a Hv)
+               rng_pair_term term_pair_ne (fun e : lent => e) (fun rg _ => rg) dbg c x tbl Hv
+               (addr_table_ctx c x Hv Hlen) (wf_pair_idx c) es base rs rest Hw Hr).
+    - exact (drain_list_enc' (rng_parse dbg c false) (enc_rle c) (wf_rle c) [n2b 0]
+               (fun a r => rng_parse_rle_enc dbg c a r Hv) (enc_rle_ne c)
+               (rng_parse_rle_end dbg c) term_op_ne (fun e : lent => e) (fun rg _ => rg) dbg c x tbl Hv
+               (addr_table_ctx c x Hv Hlen) (wf_rle_idx c) es base rs rest Hw Hr).
+  Qed.
+
+  Lemma loc_drain_enc dwo xs rest base rs :
+    forallb (wf_loc c dwo) xs = true ->
+    resolve_loc (c_asize c) tbl base xs = Some rs ->
+    loc_drain dbg c (loc_bare c dwo) x {| s_inp := enc_loc_list c dwo xs ++ rest; s_base := base |} = Ok (map EvItem rs).
+  Proof.
+    rewrite resolve_loc_gen.
+    unfold wf_loc, enc_loc_list, loc_drain, loc_next. destruct (loc_bare c dwo); intros Hw Hr; cbn [s_inp].
+    - exact (drain_list_enc' (loc_parse dbg c true) (enc_locpair c) (wf_locpair c) term_pair
+               (fun a r => loc_parse_pair_enc dbg c a r Hv) (fun a => enc_locpair_ne c a Hv)
+               loc_pair_term term_pair_ne (@fst lent (list byte)) (fun rg (a : lloc) => (rg, snd a)) dbg c x tbl Hv
+               (addr_table_ctx c x Hv Hlen) (wf_locpair_idx c) xs base rs rest Hw Hr).
+    - exact (drain_list_enc' (loc_parse dbg c false) (enc_lle c) (wf_lle c) [n2b 0]
+               (fun a r => loc_parse_lle_enc dbg c a r Hv) (enc_lle_ne c)
+               (loc_parse_lle_end dbg c) term_op_ne (@fst lent (list byte)) (fun rg (a : lloc) => (rg, snd a)) dbg c x tbl Hv
+               (addr_table_ctx c x Hv Hlen) (wf_lle_idx c) xs base rs rest Hw Hr).
+  Qed.
+End Instances.
+
+(* ------------------------------------------------------------------ entry points *)
+
+Lemma raw_ranges_sel c pre l other :
+  raw_ranges c (if rng_bare c then pre ++ l else other) (if rng_bare c then other else pre ++ l)
+             (N.of_nat (length pre)) = Ok (l, rng_bare c).
+Proof.
+  unfold raw_ranges, rng_bare. destruct (c_version c <=? 4); rewrite skip_pre; reflexivity.
+Qed.
+
+Lemma raw_locations_sel c dwo pre l other :
+  raw_locations c dwo (if c_version c <=? 4 then pre ++ l else other)
+                (if c_version c <=? 4 then other else pre ++ l)
+                (N.of_nat (length pre)) = Ok (l, loc_bare c dwo).
+Proof.
+  unfold raw_locations, loc_bare. destruct (c_version c <=? 4); rewrite skip_pre; reflexivity.
+Qed.
+
+Lemma raw_ranges_len c dr drl off inp bare :
+  raw_ranges c dr drl off = Ok (inp, bare) -> (length inp <= Nat.max (length dr) (length drl))%nat.
+Proof.
+  unfold raw_ranges, skip. destruct (c_version c <=? 4);
+    destruct (_ <? off); simpl; intros H; inversion H; subst; rewrite skipn_length; lia.
+Qed.
+
+Lemma raw_locations_len c dwo dl dll off inp bare :
+  raw_locations c dwo dl dll off = Ok (inp, bare) -> (length inp <= Nat.max (length dl) (length dll))%nat.
+Proof.
+  unfold raw_locations, skip. destruct (c_version c <=? 4);
+    destruct (_ <? off); simpl; intros H; inversion H; subst; rewrite skipn_length; lia.
+Qed.
+
+(* ---- the drains of the four iterators *)
+Section Drains.
+  Variables (dbg : bool) (c : lcfg) (bare : bool) (x : lctx).
+
+  Definition inp_len (s : lstate) : nat := length (s_inp s).
+
+  Lemma rng_step_dec s r s' :
+    rng_next (next_fuel s) dbg c bare x s = (r, s') ->
+    (exists a, r = Ok (Some a)) \/ (exists e, r = Err e) -> (inp_len s' < inp_len s)%nat.
+  Proof.
+    intros H. eapply list_next_progress in H; [|apply rng_parse_good|apply rng_parse_len].
+    unfold inp_len. tauto.
+  Qed.
+  Lemma loc_step_dec s r s' :
+    loc_next (next_fuel s) dbg c bare x s = (r, s') ->
+    (exists a, r = Ok (Some a)) \/ (exists e, r = Err e) -> (inp_len s' < inp_len s)%nat.
+  Proof.
+    intros H. eapply list_next_progress in H; [|apply loc_parse_good|apply loc_parse_len].
+    unfold inp_len. tauto.
+  Qed.
+  Lemma rng_step_nf s : fst (rng_next (next_fuel s) dbg c bare x s) <> OutOfFuel.
+  Proof. apply list_next_fuel; [apply rng_parse_good|apply rng_parse_len|unfold next_fuel; lia]. Qed.
+  Lemma loc_step_nf s : fst (loc_next (next_fuel s) dbg c bare x s) <> OutOfFuel.
+  Proof. apply list_next_fuel; [apply loc_parse_good|apply loc_parse_len|unfold next_fuel; lia]. Qed.
+
+  Lemma rng_drain_good s : valid_asize (c_asize c) = true -> good (rng_drain dbg c bare x s).
+  Proof.
+    intros Hv. unfold rng_drain. split.
+    - apply drain_np. intros s0. apply list_next_np; [apply rng_parse_good|exact Hv].
+    - apply (drain_fuel _ inp_len rng_step_dec rng_step_nf). unfold inp_len. lia.
+  Qed.
+  Lemma loc_drain_good s : valid_asize (c_asize c) = true -> good (loc_drain dbg c bare x s).
+  Proof.
+    intros Hv. unfold loc_drain. split.
+    - apply drain_np. intros s0. apply list_next_np; [apply loc_parse_good|exact Hv].
+    - apply (drain_fuel _ inp_len loc_step_dec loc_step_nf). unfold inp_len. lia.
+  Qed.
+
+  (* fuel never runs out, for any configuration *)
+  Lemma rng_drain_nf s : rng_drain dbg c bare x s <> OutOfFuel.
+  Proof. apply (drain_fuel _ inp_len rng_step_dec rng_step_nf). unfold inp_len. lia. Qed.
+  Lemma loc_drain_nf s : loc_drain dbg c bare x s <> OutOfFuel.
+  Proof. apply (drain_fuel _ inp_len loc_step_dec loc_step_nf). unfold inp_len. lia. Qed.
+
+  Lemma rng_drain_bound s l : rng_drain dbg c bare x s = Ok l -> (length l <= length (s_inp s))%nat.
+  Proof. intros H. exact (drain_length _ inp_len rng_step_dec rng_step_nf _ _ _ H). Qed.
+  Lemma loc_drain_bound s l : loc_drain dbg c bare x s = Ok l -> (length l <= length (s_inp s))%nat.
+  Proof. intros H. exact (drain_length _ inp_len loc_step_dec loc_step_nf _ _ _ H). Qed.
+
+  Lemma rng_drain_yield s l r :
+    rng_drain dbg c bare x s = Ok l -> In (EvItem r) l ->
+    fst r < snd r /\ exists t, min_tombstone_raw dbg (c_asize c) = Ok t /\ fst r < t.
+  Proof.
+    unfold rng_drain. intros H Hin.
+    eapply (drain_items _ (fun r => fst r < snd r /\ exists t, min_tombstone_raw dbg (c_asize c) = Ok t /\ fst r < t));
+      [|exact H|exact Hin].
+    intros s0 a s1 Hn. unfold rng_next in Hn. apply list_next_yield in Hn as [rg [a0 [-> Hy]]]. exact Hy.
+  Qed.
+  Lemma loc_drain_yield s l r d :
+    loc_drain dbg c bare x s = Ok l -> In (EvItem (r, d)) l ->
+    fst r < snd r /\ exists t, min_tombstone_raw dbg (c_asize c) = Ok t /\ fst r < t.
+  Proof.
+    unfold loc_drain. intros H Hin.
+    eapply (drain_items _ (fun it : (N * N) * list byte =>
+              fst (fst it) < snd (fst it) /\ exists t, min_tombstone_raw dbg (c_asize c) = Ok t /\ fst (fst it) < t))
+      in H; [|clear H Hin|exact Hin]; [exact H|].
+    intros s0 a s1 Hn. unfold loc_next in Hn. apply list_next_yield in Hn as [rg [a0 [-> Hy]]]. exact Hy.
+  Qed.
+
+  (* raw iterators: any configuration *)
+  Lemma raw_step_dec {A} (parse : list byte -> res (option A * list byte))
+        (Hg : forall inp, good (parse inp))
+        (Hl : forall inp o r, parse inp = Ok (o, r) -> (length r < length inp)%nat) inp r inp' :
+    raw_next parse inp = (r, inp') ->
+    (exists a, r = Ok (Some a)) \/ (exists e, r = Err e) -> (length inp' < length inp)%nat.
+  Proof.
+    intros H [[a ->]|[e ->]].
+    - now apply (raw_next_some parse Hl) in H.
+    - pose proof (raw_next_err_nonempty parse _ _ _ H). apply raw_next_stop in H; [|discriminate].
+      subst. destruct inp; [contradiction|simpl; lia].
+  Qed.
+
+  Lemma rng_raw_drain_good inp : good (rng_raw_drain dbg c bare inp).
+  Proof.
+    unfold rng_raw_drain, rng_raw_next. split.
+    - apply drain_np. intros s. apply raw_next_good, rng_parse_good.
+    - apply (drain_fuel _ (@length byte)); [| |lia].
+      + intros s r s'. apply raw_step_dec; [apply rng_parse_good|apply rng_parse_len].
+      + intros s. apply raw_next_good, rng_parse_good.
+  Qed.
+  Lemma loc_raw_drain_good inp : good (loc_raw_drain dbg c bare inp).
+  Proof.
+    unfold loc_raw_drain, loc_raw_next. split.
+    - apply drain_np. intros s. apply raw_next_good, loc_parse_good.
+    - apply (drain_fuel _ (@length byte)); [| |lia].
+      + intros s r s'. apply raw_step_dec; [apply loc_parse_good|apply loc_parse_len].
+      + intros s. apply raw_next_good, loc_parse_good.
+  Qed.
+End Drains.
+
+(* ---- through RangeLists::ranges / LocationLists::locations(_dwo) *)
+
+Lemma ranges_all_yield dbg c x dr drl off base l r :
+  ranges_all dbg c x dr drl off base = Ok l -> In (EvItem r) l ->
+  fst r < snd r /\ exists t, min_tombstone_raw dbg (c_asize c) = Ok t /\ fst r < t.
+Proof.
+  unfold ranges_all. intros H Hin. apply bind_Ok in H as [[inp bare] [_ H]].
+  eapply rng_drain_yield; eassumption.
+Qed.
+
+Lemma locations_all_yield dbg c dwo x dl dll off base l r d :
+  locations_all dbg c dwo x dl dll off base = Ok l -> In (EvItem (r, d)) l ->
+  fst r < snd r /\ exists t, min_tombstone_raw dbg (c_asize c) = Ok t /\ fst r < t.
+Proof.
+  unfold locations_all. intros H Hin. apply bind_Ok in H as [[inp bare] [_ H]].
+  eapply loc_drain_yield; eassumption.
+Qed.
+
+Lemma raw_ranges_good c dr drl off : good (raw_ranges c dr drl off).
+Proof.
+  unfold raw_ranges. destruct (c_version c <=? 4);
+    (apply good_bind; [apply skip_good|intros; apply good_Ok]).
+Qed.
+Lemma raw_locations_good c dwo dl dll off : good (raw_locations c dwo dl dll off).
+Proof.
+  unfold raw_locations. destruct (c_version c <=? 4);
+    (apply good_bind; [apply skip_good|intros; apply good_Ok]).
+Qed.
+
+Lemma ranges_all_good dbg c x dr drl off base :
+  valid_asize (c_asize c) = true -> good (ranges_all dbg c x dr drl off base).
+Proof.
+  intros Hv. unfold ranges_all. apply good_bind; [apply raw_ranges_good|]. intros [inp bare] _.
+  now apply rng_drain_good.
+Qed.
+Lemma locations_all_good dbg c dwo x dl dll off base :
+  valid_asize (c_asize c) = true -> good (locations_all dbg c dwo x dl dll off base).
+Proof.
+  intros Hv. unfold locations_all. apply good_bind; [apply raw_locations_good|]. intros [inp bare] _.
+  now apply loc_drain_good.
+Qed.
+Lemma raw_ranges_all_good dbg c dr drl off : good (raw_ranges_all dbg c dr drl off).
+Proof.
+  unfold raw_ranges_all. apply good_bind; [apply raw_ranges_good|]. intros [inp bare] _.
+  apply rng_raw_drain_good.
+Qed.
+Lemma raw_locations_all_good dbg c dwo dl dll off : good (raw_locations_all dbg c dwo dl dll off).
+Proof.
+  unfold raw_locations_all. apply good_bind; [apply raw_locations_good|]. intros [inp bare] _.
+  apply loc_raw_drain_good.
+Qed.
+
+Lemma ranges_all_nf dbg c x dr drl off base : ranges_all dbg c x dr drl off base <> OutOfFuel.
+Proof.
+  unfold ranges_all. apply bind_nf; [apply raw_ranges_good|]. intros [inp bare] _. apply rng_drain_nf.
+Qed.
+Lemma locations_all_nf dbg c dwo x dl dll off base : locations_all dbg c dwo x dl dll off base <> OutOfFuel.
+Proof.
+  unfold locations_all. apply bind_nf; [apply raw_locations_good|]. intros [inp bare] _. apply loc_drain_nf.
+Qed.
+
+Lemma ranges_all_bound dbg c x dr drl off base l :
+  ranges_all dbg c x dr drl off base = Ok l -> (length l <= Nat.max (length dr) (length drl))%nat.
+Proof.
+  unfold ranges_all. intros H. apply bind_Ok in H as [[inp bare] [H0 H]].
+  apply raw_ranges_len in H0. apply rng_drain_bound in H. simpl in H. lia.
+Qed.
+Lemma locations_all_bound dbg c dwo x dl dll off base l :
+  locations_all dbg c dwo x dl dll off base = Ok l -> (length l <= Nat.max (length dl) (length dll))%nat.
+Proof.
+  unfold locations_all. intros H. apply bind_Ok in H as [[inp bare] [H0 H]].
+  apply raw_locations_len in H0. apply loc_drain_bound in H. simpl in H. lia.
+Qed.
+
+(* ---- round trip and refinement through the entry points *)
+
+Lemma raw_ranges_all_enc dbg c es pre rest other :
+  valid_asize (c_asize c) = true -> forallb (wf_rng c) es = true ->
+  raw_ranges_all dbg c (if rng_bare c then pre ++ enc_rng_list c es ++ rest else other)
+                       (if rng_bare c then other else pre ++ enc_rng_list c es ++ rest)
+                       (N.of_nat (length pre))
+  = Ok (map EvItem es).
+Proof.
+  intros Hv Hw. unfold raw_ranges_all. rewrite raw_ranges_sel. cbn [bind]. now apply rng_raw_drain_enc.
+Qed.
+
+Lemma raw_locations_all_enc dbg c dwo xs pre rest other :
+  valid_asize (c_asize c) = true -> forallb (wf_loc c dwo) xs = true ->
+  raw_locations_all dbg c dwo (if c_version c <=? 4 then pre ++ enc_loc_list c dwo xs ++ rest else other)
+                              (if c_version c <=? 4 then other else pre ++ enc_loc_list c dwo xs ++ rest)
+                              (N.of_nat (length pre))
+  = Ok (map EvItem xs).
+Proof.
+  intros Hv Hw. unfold raw_locations_all. rewrite raw_locations_sel. cbn [bind]. now apply loc_raw_drain_enc.
+Qed.
+
+Lemma ranges_all_enc dbg c x es pre rest other base rs :
+  valid_asize (c_asize c) = true -> N.of_nat (length (x_addr x)) < two64 ->
+  forallb (wf_rng c) es = true ->
+  resolve_rng (c_asize c) (addr_table (c_be c) (c_asize c) (x_addr x) (x_addr_base x)) base es = Some rs ->
+  ranges_all dbg c x (if rng_bare c then pre ++ enc_rng_list c es ++ rest else other)
+                     (if rng_bare c then other else pre ++ enc_rng_list c es ++ rest)
+                     (N.of_nat (length pre)) base
+  = Ok (map EvItem rs).
+Proof.
+  intros Hv Hl Hw Hr. unfold ranges_all. rewrite raw_ranges_sel. cbn [bind]. now apply rng_drain_enc.
+Qed.
+
+Lemma locations_all_enc dbg c dwo x xs pre rest other base rs :
+  valid_asize (c_asize c) = true -> N.of_nat (length (x_addr x)) < two64 ->
+  forallb (wf_loc c dwo) xs = true ->
+  resolve_loc (c_asize c) (addr_table (c_be c) (c_asize c) (x_addr x) (x_addr_base x)) base xs = Some rs ->
+  locations_all dbg c dwo x (if c_version c <=? 4 then pre ++ enc_loc_list c dwo xs ++ rest else other)
+                            (if c_version c <=? 4 then other else pre ++ enc_loc_list c dwo xs ++ rest)
+                            (N.of_nat (length pre)) base
+  = Ok (map EvItem rs).
+Proof.
+  intros Hv Hl Hw Hr. unfold locations_all. rewrite raw_locations_sel. cbn [bind]. now apply loc_drain_enc.
+Qed.
+
+(* ------------------------------------------------------------------ Dwarf-level helpers *)
+
+Definition other_attr (p : aname * aval) : bool := match fst p with AtOther => true | _ => false end.
+
+Lemma die_loop_other u : forall pre k low high size,
+  forallb other_attr pre = true ->
+  die_ranges_loop u (pre ++ k) low high size = die_ranges_loop u k low high size.
+Proof.
+  induction pre as [|[n v] pre IH]; intros k low high size H; [reflexivity|].
+  simpl in H. apply andb_true_iff in H as [Hn H]. destruct n; try discriminate Hn.
+  simpl. now apply IH.
+Qed.
+
+Lemma attr_address_good u v : good (attr_address u v).
+Proof.
+  destruct v; simpl; try apply good_Ok.
+  apply good_bind; [apply get_address_good|intros; apply good_Ok].
+Qed.
+
+Lemma attr_ranges_good u v : good (attr_ranges u v).
+Proof.
+  unfold attr_ranges, attr_ranges_offset.
+  apply good_bind.
+  - destruct v; try apply good_Ok. apply good_bind; [apply get_offset_good|intros; apply good_Ok].
+  - intros [off|] _; [|apply good_Ok].
+    apply good_bind; [apply raw_ranges_good|]. intros [inp bare] _. apply good_Ok.
+Qed.
+
+Lemma die_ranges_loop_good u : forall attrs low high size, good (die_ranges_loop u attrs low high size).
+Proof.
+  induction attrs as [|[n v] attrs IH]; intros low high size.
+  - simpl. destruct low as [b|]; [|apply good_Ok].
+    destruct size as [m|]; [destruct (b + m <? two64); [apply good_Ok|apply good_Err]|].
+    destruct high; apply good_Ok.
+  - destruct n.
+    + simpl. apply good_bind; [apply attr_address_good|]. intros [a|] _; [apply IH|apply good_Err].
+    + assert (G : good (let* o := attr_address u v in
+                        match o with Some a => die_ranges_loop u attrs low (Some a) size
+                                   | None => Err EUnsupportedAttributeForm end)).
+      { apply good_bind; [apply attr_address_good|]. intros [a|] _; [apply IH|apply good_Err]. }
+      destruct v; try exact G. simpl. apply IH.
+    + simpl. apply good_bind; [apply attr_ranges_good|]. intros [it|] _; [apply good_Ok|apply IH].
+    + simpl. apply IH.
+Qed.
+
+(* die_ranges never panics, for any attribute list and configuration *)
+Lemma die_ranges_good u attrs : good (die_ranges u attrs).
+Proof. apply die_ranges_loop_good. Qed.
+
+Lemma die_ranges_all_good dbg u attrs :
+  valid_asize (c_asize (u_cfg u)) = true -> good (die_ranges_all dbg u attrs).
+Proof.
+  intros Hv. unfold die_ranges_all. apply good_bind; [apply die_ranges_good|].
+  intros [[r|]|bare s] _; simpl; try apply good_Ok. now apply rng_drain_good.
+Qed.
+
+(* DW_AT_low_pc + DW_AT_high_pc of class address: [low, high) *)
+Lemma die_lowhigh_addr u pre mid post lo hi :
+  forallb other_attr pre = true -> forallb other_attr mid = true -> forallb other_attr post = true ->
+  die_ranges u (pre ++ (AtLowPc, AvAddr lo) :: mid ++ (AtHighPc, AvAddr hi) :: post)
+  = Ok (RiSingle (Some (lowhigh_addr lo hi))).
+Proof.
+  intros H1 H2 H3. unfold die_ranges. rewrite die_loop_other by exact H1. simpl.
+  rewrite die_loop_other by exact H2. simpl.
+  rewrite <- (app_nil_r post), die_loop_other by exact H3. reflexivity.
+Qed.
+
+(* DW_AT_high_pc of class constant: [low, low + n), or AddressOverflow when that leaves u64 *)
+Lemma die_lowhigh_const u pre mid post lo n :
+  forallb other_attr pre = true -> forallb other_attr mid = true -> forallb other_attr post = true ->
+  die_ranges u (pre ++ (AtLowPc, AvAddr lo) :: mid ++ (AtHighPc, AvUdata n) :: post)
+  = if lo + n <? two64 then Ok (RiSingle (Some (lowhigh_const lo n))) else Err EAddressOverflow.
+Proof.
+  intros H1 H2 H3. unfold die_ranges. rewrite die_loop_other by exact H1. simpl.
+  rewrite die_loop_other by exact H2. simpl.
+  rewrite <- (app_nil_r post), die_loop_other by exact H3. reflexivity.
+Qed.
+
+(* the same with the attributes in the other order *)
+Lemma die_highlow_const u pre mid post lo n :
+  forallb other_attr pre = true -> forallb other_attr mid = true -> forallb other_attr post = true ->
+  die_ranges u (pre ++ (AtHighPc, AvUdata n) :: mid ++ (AtLowPc, AvAddr lo) :: post)
+  = if lo + n <? two64 then Ok (RiSingle (Some (lowhigh_const lo n))) else Err EAddressOverflow.
+Proof.
+  intros H1 H2 H3. unfold die_ranges. rewrite die_loop_other by exact H1. simpl.
+  rewrite die_loop_other by exact H2. simpl.
+  rewrite <- (app_nil_r post), die_loop_other by exact H3. reflexivity.
+Qed.
+
+(* DW_AT_low_pc of form addrx goes through the unit's address table *)
+Lemma die_lowx_high_const u pre mid post i lo n :
+  forallb other_attr pre = true -> forallb other_attr mid = true -> forallb other_attr post = true ->
+  valid_asize (c_asize (u_cfg u)) = true -> N.of_nat (length (u_debug_addr u)) < two64 ->
+  addr_table (c_be (u_cfg u)) (c_asize (u_cfg u)) (u_debug_addr u) (u_addr_base u) i = Some lo ->
+  die_ranges u (pre ++ (AtLowPc, AvAddrx i) :: mid ++ (AtHighPc, AvUdata n) :: post)
+  = if lo + n <? two64 then Ok (RiSingle (Some (lowhigh_const lo n))) else Err EAddressOverflow.
+Proof.
+  intros H1 H2 H3 Hv Hl Ht. unfold die_ranges. rewrite die_loop_other by exact H1.
+  cbn [die_ranges_loop attr_address]. unfold ctx_address, u_lctx. cbn [x_addr x_addr_base].
+  rewrite get_address_spec by assumption. rewrite Ht. cbn [bind].
+  rewrite die_loop_other by exact H2. simpl.
+  rewrite <- (app_nil_r post), die_loop_other by exact H3. reflexivity.
+Qed.
+
+(* DW_AT_ranges: the list at the (possibly rebased) offset, resolved against the unit's low_pc *)
+Lemma die_ranges_list dbg u pre post o :
+  forallb other_attr pre = true ->
+  die_ranges_all dbg u (pre ++ (AtRanges, AvRangesRef o) :: post)
+  = ranges_all dbg (u_cfg u) (u_lctx u) (u_debug_ranges u) (u_debug_rnglists u)
+               (if u_dwo u && (c_version (u_cfg u) <? 5) then (o + u_rnglists_base u) mod two64 else o)
+               (u_low_pc u).
+Proof.
+  intros H1. unfold die_ranges_all, die_ranges. rewrite die_loop_other by exact H1.
+  cbn [die_ranges_loop]. unfold attr_ranges, attr_ranges_offset, ranges_offset_from_raw, ranges_all, wrap64.
+  cbn [bind].
+  destruct (raw_ranges (u_cfg u) (u_debug_ranges u) (u_debug_rnglists u) _) as [[inp bare]|e| |]; reflexivity.
+Qed.
+
+Lemma die_ranges_listx dbg u pre post i off :
+  forallb other_attr pre = true -> N.of_nat (length (u_debug_rnglists u)) < two64 ->
+  offset_table (c_be (u_cfg u)) (u_fmt64 u) (u_debug_rnglists u) (u_rnglists_base u) i = Some off ->
+  off < two64 ->
+  die_ranges_all dbg u (pre ++ (AtRanges, AvRnglistx i) :: post)
+  = ranges_all dbg (u_cfg u) (u_lctx u) (u_debug_ranges u) (u_debug_rnglists u) off (u_low_pc u).
+Proof.
+  intros H1 Hl Ht Ho. unfold die_ranges_all, die_ranges. rewrite die_loop_other by exact H1.
+  cbn [die_ranges_loop]. unfold attr_ranges, attr_ranges_offset, ranges_all.
+  rewrite get_offset_spec by exact Hl. rewrite Ht. replace (off <? two64) with true by lia. cbn [bind].
+  destruct (raw_ranges (u_cfg u) (u_debug_ranges u) (u_debug_rnglists u) off) as [[inp bare]|e| |]; reflexivity.
+Qed.
+
+Lemma attr_locations_offset_x u i :
+  N.of_nat (length (u_debug_loclists u)) < two64 ->
+  attr_locations_offset u (AvLoclistx i) =
+  match offset_table (c_be (u_cfg u)) (u_fmt64 u) (u_debug_loclists u) (u_loclists_base u) i with
+  | Some o => if o <? two64 then Ok (Some o) else Err EUnsupportedOffset
+  | None => Err EUnexpectedEof
+  end.
+Proof.
+  intros Hl. unfold attr_locations_offset. rewrite get_offset_spec by exact Hl.
+  destruct (offset_table _ _ _ _ _) as [o|]; [|reflexivity]. destruct (o <? two64); reflexivity.
+Qed.
+
+(* ------------------------------------------------------------------ unvalidated address sizes *)
+
+(* RangeLists::ranges with a caller-made Encoding { address_size: 0 }: min_tombstone shifts by 64 *)
+Definition badsize_cfg : lcfg := {| c_be := false; c_asize := 0; c_version := 5 |}.
+Definition badsize_sect : list byte := [n2b 4; n2b 0; n2b 1; n2b 0].
+Lemma ranges_all_badsize_panics :
+  ranges_all true badsize_cfg {| x_addr := []; x_addr_base := 0 |} [] badsize_sect 0 0 = Panic.
+Proof. vm_compute. reflexivity. Qed.
+Lemma ranges_all_badsize_release :
+  ranges_all false badsize_cfg {| x_addr := []; x_addr_base := 0 |} [] badsize_sect 0 0 = Ok [EvItem (0, 1)].
+Proof. vm_compute. reflexivity. Qed.
